@@ -162,7 +162,8 @@ structure DState where
   table : List Bundle := []     -- every bundle mentioned so far: the parser's domain
   model : State := State.empty
   spec : SMap := []
-  failed : Bool := false        -- a verdict other than ok was given in this sequence
+  failed : Bool := false        -- a Spec failure was reported in this sequence
+  modelOff : Bool := false      -- model and implementation diverged in this sequence: Spec only
 
 /-- `bpv7.ParseBundle` on a part file: the bundle whose encoding starts the file; rejected when
 its lifetime is exceeded (`CheckValid`). -/
@@ -334,6 +335,7 @@ def handleOp (d : DState) (desc res : String) (dump : List String) : DState × S
       match judge d' spec' g with
       | some (cls, det) => (d', s!"specfail {cls}-after-{kind} {det}")
       | none =>
+        if d.modelOff then (d', "skip model-diverged") else
         match diffDump d' model' (modelDump d' model' false) g with
         | some det => (d', s!"diff {kind} {det}")
         | none => (d', "ok")
@@ -359,7 +361,7 @@ def handleCrash (d : DState) (pt desc exit : String) (dump : List String) : DSta
     -- the primitive operation the child was killed in
     let prim : Option Op := match c with
       | .op o => some o
-      | .sweep now => match expiredIds d.model now with
+      | .sweep now => match (d.spec.filter (fun e => decide (e.2.expires < now))).map (·.1) with
         | [id] => some (.delete id)
         | _ => none
       | .reopen => none
@@ -382,6 +384,7 @@ def handleCrash (d : DState) (pt desc exit : String) (dump : List String) : DSta
         else (d', s!"specfail crash-{point}-neither-old-nor-new {why}")
       | some m =>
         let d' := pick m
+        if d.modelOff then (d', "skip model-diverged") else
         match diffDump d' modelAfter (modelDump d' modelAfter false) g with
         | some det => (d', s!"diff crash {point}:{nth} {det}")
         | none => (d', "ok")
@@ -399,7 +402,8 @@ def handleConc (d : DState) (p1 p2 parked blocked res : String) (dump : List Str
     else match judge d' spec' g with
     | some (cls, det) => (d', s!"specfail {cls}-after-concurrent-push {det}")
     | none =>
-      if parked != "1" then (d', "diff conc hook-point-not-reached")
+      if d.modelOff then (d', "skip model-diverged")
+      else if parked != "1" then (d', "diff conc hook-point-not-reached")
       else if blocked != "1" then (d', "diff conc second-push-not-blocked-by-mutex")
       else
         match [s12, s21].find? (fun s => (diffDump d' s (modelDump d' s false) g).isNone) with
@@ -422,6 +426,7 @@ def handleStress (d : DState) (pushes : List String) (res : String) (dump : List
     else match judge d' spec' g with
     | some (cls, det) => (d', s!"specfail {cls}-after-concurrent-push {det}")
     | none =>
+      if d.modelOff then (d', "skip model-diverged") else
       match diffDump d' model' (modelDump d' model' true) (sortParts g) with
       | some det => (d', s!"diff stress {det}")
       | none => (d', "ok")
@@ -450,7 +455,7 @@ def handle1 (d : DState) (line : String) : DState × String :=
   | "reset" :: sid :: _ :: dump =>
     -- the harness emptied the store after a stress round: the dump must be empty, start afresh
     if sid != d.sid then (d, "skip sequence-mismatch") else
-    let d' : DState := { sid := d.sid, now := d.now }
+    let d' : DState := { sid := d.sid, now := d.now, modelOff := d.modelOff }
     match parseDump dump with
     | some g =>
       if g.items.isEmpty && g.files.isEmpty && g.pend.isEmpty && g.knows.isEmpty then (d', "ok")
@@ -463,7 +468,9 @@ re-synchronised with the implementation afterwards. -/
 def handle (d : DState) (line : String) : DState × String :=
   if d.failed && !line.startsWith "begin " then (d, "skip after-failure") else
   let (d', v) := handle1 d line
-  (if v.startsWith "ok" then d' else { d' with failed := true }, v)
+  if v.startsWith "specfail" || v.startsWith "skip parse" then ({ d' with failed := true }, v)
+  else if v.startsWith "diff" then ({ d' with modelOff := true }, v)
+  else (d', v)
 
 end C08
 
